@@ -718,3 +718,7 @@ def replay(run, data) -> None:
         one_case(run, run.seed, int(case['id']))
     run.case('pad', True)
     run.case('pad2', True)
+
+
+# (kept at the end of the file so that the text above stays the description the check was first built to)
+RULE += ' ' + "Later additions: ANGLES-typed keyvalues other than angles (movedir, pushdir, spraydir, ajarangles); every field of an output; variable names that are prefixes of each other and values with backslashes / '$'."
